@@ -311,8 +311,8 @@ class Model:
         return 0.5 * (a + np.swapaxes(a, 0, 1)), la
 
     def op_perp(self, r, s):
-        a = self._nolab(r, s)
-        return np.array([-a[1], a[0]]), ()
+        a, la = self.ev(r[1], s)  # (labels are trailing axes: the rotation acts on axis 0)
+        return np.stack([-a[1], a[0]], axis=0), la
 
     def op_diag(self, r, s):
         a = self._nolab(r, s)
